@@ -420,8 +420,14 @@ func cmdCheck(args []string) int {
 				results := runReplaysFull(twins)
 				for j, res := range results {
 					ev.TwinsRun++
+					okOwn := res.Ran && !res.Panicked && !res.Assume
+					for _, c := range res.Checks {
+						if strings.HasPrefix(c.ID, u.Only) && !c.OK {
+							okOwn = false
+						}
+					}
 					switch {
-					case res.AllOK():
+					case okOwn:
 						ev.TwinsAgree++
 						_ = os.RemoveAll(twins[j].Dir)
 					case res.Assume:
